@@ -25,8 +25,7 @@ type Solver struct {
 	log     io.Writer
 	buf     strings.Builder
 	pendingPop bool
-	inPush     bool
-	pushDefs   []int
+	scopes     [][]int
 }
 
 func NewSolver(kind string, timeoutMs int) (*Solver, error) {
@@ -111,6 +110,7 @@ func (s *Solver) Reset() {
 		return
 	}
 	s.send("(reset)")
+	s.scopes = nil
 	s.defined = map[int]bool{}
 	s.prelude()
 }
@@ -124,9 +124,7 @@ func (s *Solver) name(t *Term) string {
 	case OVar:
 		if !s.defined[t.id] {
 			s.defined[t.id] = true
-			if s.inPush {
-				s.pushDefs = append(s.pushDefs, t.id)
-			}
+			s.noteDef(t.id)
 			s.send(fmt.Sprintf("(declare-fun |%s| () %s)", t.name, t.sort))
 		}
 		return "|" + t.name + "|"
@@ -140,9 +138,7 @@ func (s *Solver) name(t *Term) string {
 		args[i] = s.name(a)
 	}
 	s.defined[t.id] = true
-	if s.inPush {
-		s.pushDefs = append(s.pushDefs, t.id)
-	}
+	s.noteDef(t.id)
 	s.send(fmt.Sprintf("(define-fun %s () %s %s)", n, t.sort, t.render(args)))
 	return n
 }
@@ -151,8 +147,25 @@ func (s *Solver) Assert(t *Term) {
 	s.send("(assert " + s.name(t) + ")")
 }
 
-func (s *Solver) Push() { s.send("(push 1)") }
-func (s *Solver) Pop()  { s.send("(pop 1)") }
+func (s *Solver) noteDef(id int) {
+	if n := len(s.scopes); n > 0 {
+		s.scopes[n-1] = append(s.scopes[n-1], id)
+	}
+}
+
+func (s *Solver) Push() {
+	s.send("(push 1)")
+	s.scopes = append(s.scopes, nil)
+}
+
+func (s *Solver) Pop() {
+	s.send("(pop 1)")
+	n := len(s.scopes)
+	for _, id := range s.scopes[n-1] {
+		delete(s.defined, id)
+	}
+	s.scopes = s.scopes[:n-1]
+}
 
 // definitions made between Push and Pop would be lost by the solver, so the
 // caller uses CheckWith instead, which defines the extra terms before pushing.
@@ -165,8 +178,7 @@ func (s *Solver) CheckWith(extra ...*Term) string {
 		names[i] = s.name(e)
 	}
 	if len(extra) > 0 {
-		s.send("(push 1)")
-		s.inPush = true
+		s.Push()
 		for _, n := range names {
 			s.send("(assert " + n + ")")
 		}
@@ -180,13 +192,8 @@ func (s *Solver) CheckWith(extra ...*Term) string {
 // after CheckWith, the caller may call Values (if sat) and must call Done.
 func (s *Solver) Done() {
 	if s.pendingPop {
-		s.send("(pop 1)")
+		s.Pop()
 		s.pendingPop = false
-		s.inPush = false
-		for _, id := range s.pushDefs {
-			delete(s.defined, id)
-		}
-		s.pushDefs = s.pushDefs[:0]
 	}
 }
 
